@@ -318,6 +318,7 @@ struct FipsRaceSim : Sim {
                 p.cfg["yields"] = (int) g.below(5);
                 p.cfg["prio_seed"] = (int64_t) g.below(1 << 30);
                 p.cfg["impl"] = g.chance(1, 4) ? 1 : 0; // 0: asm (x86_64 library), 1: self_tests_generic.c (C11 atomics variant)
+                p.cfg["sha_fail_value"] = g.chance(1, 2) ? 1 : -1;
                 for (int i = 0; i < n; i++) {
                         p.cfg[strfmt("t%d_kind", i)] = (int64_t) g.below(8);
                         p.cfg[strfmt("t%d_late", i)] = g.chance(1, 5) ? 1 : 0;
@@ -401,7 +402,7 @@ struct FipsRaceSim : Sim {
                 g_st.reset();
                 g_st.inject = !real;
                 g_st.aes_verdict = (verdict & 1) ? 1 : 0;
-                g_st.sha_verdict = (verdict & 2) ? 1 : 0;
+                g_st.sha_verdict = (verdict & 2) ? (p.get("sha_fail_value", 1) < 0 ? -1 : 1) : 0; // the real SHA tests return -1
                 if (real)
                         verdict = 0;
                 g_st.yields = (int) p.get("yields");
@@ -723,7 +724,7 @@ struct FipsGateSim : Sim {
                 }
         }
 
-        enum { FK_NONE_PASS = 0, FK_AES_FAIL = 1, FK_SHA_FAIL = 2, FK_KAT_CORRUPT = 3, FK_PRESET_FAILED = 4, FK_PRESET_PASSED = 5 };
+        enum { FK_NONE_PASS = 0, FK_AES_FAIL = 1, FK_SHA_FAIL = 2, FK_KAT_CORRUPT = 3, FK_PRESET_FAILED = 4, FK_PRESET_PASSED = 5, FK_BOTH_FAIL = 6, FK_KAT_BOTH = 7, FK_N = 8 };
         enum { OPG_CALL = 1, OPG_INJECT = 2 };
 
         Plan generate(uint64_t seed, const std::string &, bool thorough, uint64_t run_index) override
@@ -731,7 +732,8 @@ struct FipsGateSim : Sim {
                 Rng g(seed, "plan");
                 Plan p;
                 // initial state by fault injection
-                p.cfg["fault"] = (int64_t) (run_index % 6);
+                p.cfg["fault"] = (int64_t) (run_index % FK_N);
+                p.cfg["sha_fail_value"] = g.chance(1, 2) ? 1 : -1; // the real SHA tests report failure as -1, the header documents 1
                 p.cfg["kat_target"] = (int64_t) g.below(6);
                 p.cfg["kat_transient"] = (int64_t) g.below(2);
                 int ne = (int) entries.size();
@@ -740,7 +742,7 @@ struct FipsGateSim : Sim {
                 for (int i = 0; i < ncalls; i++) {
                         Op o;
                         o.kind = OPG_CALL;
-                        o.a = i == 0 ? (int64_t) ((run_index / 6) % (ne ? ne : 1)) : (int64_t) g.below(ne ? ne : 1);
+                        o.a = i == 0 ? (int64_t) ((run_index / FK_N) % (ne ? ne : 1)) : (int64_t) g.below(ne ? ne : 1);
                         o.b = (int64_t) g.below(1 << 16); // variant: xts same keys, lengths
                         o.c = (int64_t) g.below(1 << 16);
                         o.d = (int64_t) g.below(1 << 16);
@@ -748,7 +750,7 @@ struct FipsGateSim : Sim {
                         if (g.chance(1, 12)) {
                                 Op f;
                                 f.kind = OPG_INJECT;
-                                f.a = (int64_t) g.below(6);
+                                f.a = (int64_t) g.below(FK_N);
                                 p.ops.push_back(f);
                         }
                 }
@@ -756,13 +758,14 @@ struct FipsGateSim : Sim {
         }
         std::string render(const Plan &p) const override
         {
-                static const char *fk[6] = { "none(pass)", "aes_self_test_fails", "sha_self_test_fails", "kat_corruption", "preset_failed", "preset_passed" };
-                std::string s = strfmt("initial_fault=%s calls=[", fk[p.get("fault") % 6]);
+                static const char *fk[FK_N] = { "none(pass)",    "aes_self_test_fails", "sha_self_test_fails",      "kat_corruption",
+                                                "preset_failed", "preset_passed",       "aes_and_sha_self_tests_fail", "kat_corruption_aes_and_sha" };
+                std::string s = strfmt("initial_fault=%s calls=[", fk[p.get("fault") % FK_N]);
                 for (size_t i = 0; i < p.ops.size() && i < 16; i++) {
                         if (p.ops[i].kind == OPG_CALL && !entries.empty())
                                 s += (i ? " " : "") + entries[p.ops[i].a % entries.size()].name + strfmt("(%lld)", (long long) p.ops[i].b);
                         else
-                                s += strfmt(" INJECT(%s)", fk[p.ops[i].a % 6]);
+                                s += strfmt(" INJECT(%s)", fk[p.ops[i].a % FK_N]);
                 }
                 return s + "]";
         }
@@ -770,6 +773,7 @@ struct FipsGateSim : Sim {
         // --- state model
         int model_state = ST_NOT_DONE; // what self_test_status must be
         int pending_fault = FK_NONE_PASS;
+        int sha_fail_value = 1;
 
         static const char *state_name(int s) { return s == ST_OK ? "PASSED" : s == ST_FAIL ? "FAILED" : s == ST_NOT_DONE ? "NOT_RUN" : "RUNNING"; }
 
@@ -785,8 +789,9 @@ struct FipsGateSim : Sim {
                 g_st.reset();
                 kat_armed = false;
                 pending_fault = fk;
-                static const char *fkn[6] = { "fault_none_self_tests_pass", "fault_aes_self_test_forced_to_fail", "fault_sha_self_test_forced_to_fail", "fault_kat_corruption_in_kernel",
-                                              "fault_state_preset_failed", "fault_state_preset_passed" };
+                static const char *fkn[FK_N] = { "fault_none_self_tests_pass", "fault_aes_self_test_forced_to_fail", "fault_sha_self_test_forced_to_fail", "fault_kat_corruption_in_kernel",
+                                                 "fault_state_preset_failed", "fault_state_preset_passed", "fault_aes_and_sha_self_tests_forced_to_fail",
+                                                 "fault_kat_corruption_in_an_aes_and_a_sha_kernel" };
                 r.cov.hit(fkn[fk]);
                 switch (fk) {
                 case FK_NONE_PASS:
@@ -802,10 +807,18 @@ struct FipsGateSim : Sim {
                 case FK_SHA_FAIL:
                         g_set_status(ST_NOT_DONE);
                         g_st.inject = true;
-                        g_st.sha_verdict = 1;
+                        g_st.sha_verdict = sha_fail_value;
+                        model_state = ST_NOT_DONE;
+                        break;
+                case FK_BOTH_FAIL:
+                        g_set_status(ST_NOT_DONE);
+                        g_st.inject = true;
+                        g_st.aes_verdict = 1;
+                        g_st.sha_verdict = sha_fail_value;
                         model_state = ST_NOT_DONE;
                         break;
                 case FK_KAT_CORRUPT:
+                case FK_KAT_BOTH:
                         g_set_status(ST_NOT_DONE);
                         kat_armed = true;
                         model_state = ST_NOT_DONE;
@@ -927,14 +940,16 @@ static void kat_bind()
                 kat_real[i] = *kat_slot[i];
         }
 }
-static void kat_arm(int target, bool on)
+static void kat_arm(int target, bool on, bool both)
 {
         static void *stubs[8] = { (void *) kat_cbc_enc128, (void *) kat_cbc_dec256, (void *) kat_xts256_dec, (void *) kat_gcm_enc128, (void *) kat_sha512_flush,
                                   (void *) kat_sha512_submit, (void *) kat_sha1_flush, (void *) kat_sha1_submit };
         // targets 0-3: one AES kernel; 4: SHA-512 (submit+flush); 5: SHA-1 (submit+flush)
         for (int i = 0; i < 8; i++) {
                 bool sel = i < 4 ? (i == target) : target == 4 ? (i == 4 || i == 5) : target == 5 ? (i == 6 || i == 7) : false;
-                *kat_slot[i] = (on && sel) ? stubs[i] : kat_real[i];
+                if (both) // one AES kernel (target mod 4) and one SHA algorithm (target parity) at once
+                        sel = i < 4 ? (i == target % 4) : (target & 1) ? (i == 4 || i == 5) : (i == 6 || i == 7);
+                *kat_slot[i] = ((on || both) && sel) ? stubs[i] : kat_real[i];
         }
 }
 
@@ -944,16 +959,19 @@ void FipsGateSim::execute(const Plan &p, Env &e, RunResult &r)
                 return;
         kat_bind();
         kat_target = (int) (p.get("kat_target") % 6);
+        sha_fail_value = p.get("sha_fail_value", 1) < 0 ? -1 : 1;
         kat_transient = p.get("kat_transient") != 0;
         if (kat_transient)
                 r.cov.hit("fault_kat_corruption_transient");
-        int fk = (int) (p.get("fault") % 6);
+        int fk = (int) (p.get("fault") % FK_N);
         apply_fault(fk, e, r);
-        kat_arm(kat_target, fk == FK_KAT_CORRUPT);
+        if (fk == FK_KAT_BOTH)
+                kat_transient = false;
+        kat_arm(kat_target, fk == FK_KAT_CORRUPT, fk == FK_KAT_BOTH);
         struct Cleanup {
                 ~Cleanup()
                 {
-                        kat_arm(0, false);
+                        kat_arm(0, false, false);
                         FipsGateSim::kat_armed = false;
                         g_st.reset();
                         g_set_status(ST_NOT_DONE);
@@ -965,9 +983,11 @@ void FipsGateSim::execute(const Plan &p, Env &e, RunResult &r)
                 e.op_index = (int) i;
                 const Op &o = p.ops[i];
                 if (o.kind == OPG_INJECT) {
-                        int f2 = (int) (o.a % 6);
+                        int f2 = (int) (o.a % FK_N);
                         apply_fault(f2, e, r);
-                        kat_arm(kat_target, f2 == FK_KAT_CORRUPT);
+                        if (f2 == FK_KAT_BOTH)
+                                kat_transient = false;
+                        kat_arm(kat_target, f2 == FK_KAT_CORRUPT, f2 == FK_KAT_BOTH);
                         e.ev(mix64(OPG_INJECT, (uint64_t) f2));
                         continue;
                 }
